@@ -49,7 +49,9 @@ func NewHost() *Host {
 	h.Env.Define("gfix2", func(a, b interface{}) interface{} { return list(a, b) })
 	h.Env.Define("gfix3", func(a, b, c interface{}) interface{} { return list(a, b, c) })
 	h.Env.Define("gfix5", func(a, b, c, d, e interface{}) interface{} { return list(a, b, c, d, e) })
-	h.Env.Define("gvar", func(a interface{}, rest ...interface{}) interface{} { return list(append([]interface{}{a}, rest...)...) })
+	h.Env.Define("gvar", func(a interface{}, rest ...interface{}) interface{} {
+		return list(append([]interface{}{a}, rest...)...)
+	})
 	h.Env.Define("gtyped", func(a int64, b string, c int64) interface{} { return list(a, b, c) })
 	h.Env.Define("gtvar", func(a string, rest ...int64) interface{} {
 		out := []interface{}{a}
